@@ -87,8 +87,15 @@ func RandScenario(r *core.RNG, o Opts) Scenario {
 				t.Name = fmt.Sprintf("U%d", k)
 			}
 			for _, g := range names {
-				if r.Chance(65) {
+				switch {
+				case r.Chance(65):
 					t.Enabled = append(t.Enabled, g)
+				case r.Chance(20): // written "+gengo:<g>=false": the tag is there, the generator is off
+					t.Enabled = append(t.Enabled, g+"=false")
+				case r.Chance(20): // only a sub-option "+gengo:<g>:opt=1": enables <g>
+					t.Enabled = append(t.Enabled, g+":opt=1")
+				case r.Chance(10): // "+gengo:<g>=false" together with a sub-option: off
+					t.Enabled = append(t.Enabled, g+"=false", g+":opt")
 				}
 			}
 			p.Types = append(p.Types, t)
